@@ -40,21 +40,24 @@ func goid() int64 {
 }
 
 type env struct {
-	tr     *vt.Tracer
-	u      *vt.Universe
-	db     *leveldb.DB
-	stor   *vt.RecStor
-	o      *opt.Options
-	mu     sync.Mutex
-	gmap   map[int64]int   // goroutine -> client id
-	idmap  map[int64]int   // write data id -> op id
-	opn    int64           // op id counter
-	valn   int64           // value id counter
-	open   map[int]*openOp // calls in flight
-	prog   int64           // progress counter
-	done   int32
-	fault  *faultState
-	noIter bool
+	tr      *vt.Tracer
+	u       *vt.Universe
+	db      *leveldb.DB
+	stor    *vt.RecStor
+	o       *opt.Options
+	mu      sync.Mutex
+	gmap    map[int64]int   // goroutine -> client id
+	idmap   map[int64]int   // write data id -> op id
+	opn     int64           // op id counter
+	valn    int64           // value id counter
+	open    map[int]*openOp // calls in flight
+	prog    int64           // progress counter
+	done    int32
+	fault   *faultState
+	huge    bool
+	lastKey int64 // number of values written so far (huge mode)
+	ring    [16]int64
+	noIter  bool
 }
 
 type openOp struct {
@@ -148,6 +151,13 @@ func valID(v []byte) int {
 	for i := 5; i >= 0; i-- {
 		id = id<<8 | int(v[i])
 	}
+	// the rest of a value is determined by its id: bytes of two values mixed are nobody's value
+	f := byte('a' + id%17)
+	for _, c := range v[6:] {
+		if c != f {
+			return -2
+		}
+	}
 	return id
 }
 
@@ -221,6 +231,7 @@ type wcfg struct {
 	bigEvery int
 	fatEvery int
 	wb       int
+	huge     int // > 0: every value has this many bytes (a quarter of the write buffer)
 }
 
 func (e *env) writer(c int, rng *rand.Rand, cfg wcfg, wg *sync.WaitGroup) {
@@ -243,12 +254,15 @@ func (e *env) writer(c int, rng *rand.Rand, cfg wcfg, wg *sync.WaitGroup) {
 				continue
 			}
 			l := 8 + rng.Intn(40)
-			if big {
+			if cfg.huge > 0 {
+				l = cfg.huge - rng.Intn(64)
+			} else if big {
 				l = cfg.wb/2 + rng.Intn(cfg.wb)
 			} else if rng.Intn(cfg.fatEvery) == 0 {
 				l = cfg.wb / 4 // fat values make merged groups overflow: the lock is handed to the writer that did not fit
 			}
 			v, id := e.fresh(l)
+			atomic.StoreInt64(&e.ring[(atomic.AddInt64(&e.lastKey, 1))%int64(len(e.ring))], int64(k))
 			ops = append(ops, [2]int{k, id})
 			b.Put(e.u.Key(k), v)
 		}
@@ -306,9 +320,19 @@ func (e *env) reader(c int, rng *rand.Rand, nops int, wg *sync.WaitGroup) {
 		if e.noIter && r > 1 {
 			r = rng.Intn(2) // iterators must not be held across Close (documented)
 		}
+		if e.huge && rng.Intn(8) != 0 {
+			r = 0 // mostly point reads of what was just written: it sits in the write buffer that is about to be frozen and recycled
+		}
 		switch r {
 		case 0: // point read
 			k := rng.Intn(e.u.N())
+			if e.huge && rng.Intn(4) != 0 {
+				// a key written a few writes ago: its newest version sits in the buffer that is being frozen, flushed and recycled
+				n := atomic.LoadInt64(&e.lastKey)
+				if back := int64(2 + rng.Intn(4)); n > back {
+					k = int(atomic.LoadInt64(&e.ring[(n-back)%int64(len(e.ring))]))
+				}
+			}
 			op := e.call(c, "get", vt.Ev{"k": k})
 			v, err := e.db.Get(e.u.Key(k), nil)
 			id := 0
@@ -459,6 +483,7 @@ func main() {
 	hang := flag.Int("hang", 20, "seconds without progress before blocked calls are reported")
 	procs := flag.Int("procs", 0, "GOMAXPROCS (0: by seed)")
 	fat := flag.Int("fat", 8, "one value in this many is a quarter of the write buffer")
+	huge := flag.Int("huge", 0, "KiB: every value is this large and the write buffer holds four of them")
 	flag.Parse()
 
 	rng := rand.New(rand.NewSource(*seed))
@@ -468,6 +493,12 @@ func main() {
 	runtime.GOMAXPROCS(*procs)
 	row := vt.DrawRow(*seed, vt.RowSpec{CmpKind: 0, CmpSep: -1, SmallOnly: true})
 	row.O.NoWriteMerge = false
+	if *huge > 0 {
+		// write buffers of four values: they fill, freeze, flush and are recycled through the buffer pool every few writes,
+		// while readers copy large values out of them
+		row.O.WriteBuffer = 4 * *huge * 1024
+		row.Desc += fmt.Sprintf("huge=%dk ", *huge)
+	}
 	tr, err := vt.NewTracer(*out)
 	if err != nil {
 		fmt.Fprintln(os.Stderr, err)
@@ -477,6 +508,7 @@ func main() {
 		gmap: map[int64]int{}, idmap: map[int64]int{}, open: map[int]*openOp{}}
 	e.stor.Record = false
 	e.noIter = *withClose
+	e.huge = *huge > 0
 	if *fault != "" {
 		f := strings.Split(*fault, ":")
 		fs := &faultState{}
@@ -528,7 +560,7 @@ func main() {
 	for i := 0; i < *nw; i++ {
 		c++
 		wg.Add(1)
-		go e.writer(c, rand.New(rand.NewSource(*seed*100+int64(c))), wcfg{nops: *nops, keysPer: 4, bigEvery: 25, fatEvery: *fat, wb: e.o.WriteBuffer}, &wg)
+		go e.writer(c, rand.New(rand.NewSource(*seed*100+int64(c))), wcfg{nops: *nops, keysPer: 4, bigEvery: 25, fatEvery: *fat, wb: e.o.WriteBuffer, huge: *huge * 1024}, &wg)
 	}
 	for i := 0; i < *nr; i++ {
 		c++
